@@ -77,6 +77,16 @@ add("C06", "model_checking",
     "stateless choice-point exploration (all iteration-order answers, deviation-bounded beyond 3 methods) + exhaustive permutation / extension enumeration",
     "DESIGN.md section 5 C06")
 
+add("C16", "model_checking",
+    "Explicit-state breadth-first search over create / copy / mixin / add_mixins / register / unregister / call histories on a graph of "
+    "up to 3 real functions with and without linkback; after every transition every node is probed on a replayed copy and must equal "
+    "a fresh function built from its reference (R6) effective method list, and a modification must be refused iff a used descendant "
+    "is not linked to the modified node.",
+    "Trusted: reference graph model (R6 + lock rule). Derivations that reach one ancestor along two paths are left out (statement silent); "
+    "states are merged without cache contents (sound modulo C04/C05).",
+    "explicit-state BFS over operation histories replayed on the real objects vs a reference derivation model",
+    "DESIGN.md section 5 C16")
+
 ALL = [f"C{i:02d}" for i in range(1, 21)]
 REASON_PENDING = "check not built yet in this round (planned: DESIGN.md section 5); not claimed until its machinery exists"
 
